@@ -40,6 +40,7 @@ partial def loop (inp : IO.FS.Stream) (out : IO.FS.Stream) (zone : IO.Ref Starca
     | _ :: "abuse" :: _ => pure "ok"
     | _ :: "other-table" :: _ => pure "ok"
     | _ :: "reuse" :: _ => pure "ok"
+    | _ :: "toggle" :: _ => pure "ok"
     | ["zone", "set", _name, o0, tr] =>
       match o0.toInt?, parseTrans tr with
       | some o, some t => do zone.set ⟨o, t⟩; pure "ok"
